@@ -94,7 +94,9 @@ impl_euc_ratio!(i64); impl_euc_ratio!(BigInt);
 impl<const P: i32> Euc for FF<P> {
     fn ring() -> Value { json!({"k":"F","p":P}) }
     fn name() -> String { format!("FF<{}>", P) }
-    fn gen(rng: &mut StdRng, _: u64) -> Option<Self> { Some(FF::new(rng.gen_range(-2 * P..3 * P))) }
+    fn gen(rng: &mut StdRng, _: u64) -> Option<Self> {
+        // unreduced and negative arguments of FF::new where they fit an i32; for moduli near 2^31 any i32
+        if P < (1 << 29) { Some(FF::new(rng.gen_range(-2 * P..3 * P))) } else { Some(FF::new(if rng.gen_bool(0.5) { rng.gen_range(-40i32..40) } else { rng.gen::<i32>() })) } }
     fn bits(_: u64) -> (u64, u64) { (8, 8) }
     fn units() -> Vec<Self> { (1..P.min(7)).map(FF::new).collect() }
     fn small(p: &[i64]) -> Option<Self> { Some(FF::new(p[0] as i32)) }
@@ -276,7 +278,7 @@ pub fn record(a: &Args) {
     run!(GaussInt<i64>, "G", 5); run!(GaussInt<i128>, "G", 6); run!(GaussInt<BigInt>, "G", 7);
     run!(EisenInt<i64>, "E", 8); run!(EisenInt<i128>, "E", 9); run!(EisenInt<BigInt>, "E", 10);
     run!(Ratio<i64>, "Q", 11); run!(Ratio<BigInt>, "Q", 12);
-    run!(FF2, "F2", 13); run!(FF<3>, "F3", 14); run!(FF<5>, "F5", 15); run!(FF<7>, "F7", 16);
+    run!(FF2, "F2", 13); run!(FF<3>, "F3", 14); run!(FF<5>, "F5", 15); run!(FF<7>, "F7", 16); run!(FF<1000003>, "Fbig", 21); run!(FF<2147483647>, "Fbig", 22);
     run!(Poly<'x', Ratio<i64>>, "PQ", 17); run!(Poly<'x', Ratio<BigInt>>, "PQ", 18); run!(Poly<'x', FF<3>>, "PF3", 19); run!(Poly<'x', FF<5>>, "PF5", 20);
     let nev = t.finish();
     summary("record", json!({"events": nev, "operand_pairs": st.pairs, "types": types, "panics": st.panics, "planted_exact_divisions": st.exact_div, "planted_ties": st.ties, "machine_overflows_outside_envelope": st.outside, "full_range_machine_int_pairs": st.extreme_pairs}));
